@@ -1,18 +1,20 @@
 #!/bin/sh
 # usage: tools/try_variant.sh <patch> [checks...]   -- apply a patch to the scratch worktree /tmp/sv (created from /repo HEAD on demand),
+# (env: SV scratch worktree, TIER quick|thorough, SHOW lines, W width)
 # run the given checks (default: all) against it with VERIF_REPO, print the alarms, revert.  /repo itself is never touched.
 p=$(realpath "$1"); shift
+HERE=$(dirname "$(dirname "$(realpath "$0")")")
 SV=${SV:-/tmp/sv}
 [ -d $SV ] || git -C /repo worktree add -q $SV HEAD
 cd $SV && git checkout -q --detach $(git -C /repo rev-parse HEAD) && git checkout -- . || exit 2
 git apply "$p" || { echo "patch does not apply"; exit 2; }
-cd /verif
+cd "$HERE"
 [ $# -eq 0 ] && set -- C01 C02 C03 C04 C05 C06 C07 C08 C09 C10 C11 C12 C13 C14 C15 C16 C17 C18 C19
 fl=""
 for c in "$@"; do
-  VERIF_REPO=$SV VERIF_EVIDENCE_DIR=${SV}_evidence ./check $c quick > /tmp/tv_out.txt 2>&1
+  VERIF_REPO=$SV VERIF_EVIDENCE_DIR=${SV}_evidence ./check $c ${TIER:-quick} > ${SV}_tv_out.txt 2>&1
   rc=$?
-  if [ $rc -ne 0 ]; then fl="$fl $c"; echo "ALARM $c rc=$rc"; grep -E "^  rule|Error" /tmp/tv_out.txt | head -${SHOW:-6} | cut -c1-${W:-400}; fi
+  if [ $rc -ne 0 ]; then fl="$fl $c"; echo "ALARM $c rc=$rc"; grep -E "^  rule|Error" ${SV}_tv_out.txt | head -${SHOW:-6} | cut -c1-${W:-400}; fi
 done
 cd $SV && git checkout -- .
 echo "FLAGGED:${fl:- (none)}"
